@@ -23,6 +23,22 @@ class SBin:
     def __iter__(self):
         return (x if isinstance(x, str) else SBin([x]) for x in self.c)
 
+    def count(self, sub, *a):
+        """str.count for a single character '0' / '1' (or any other single character, which can only match concrete positions)"""
+        if a or not isinstance(sub, str) or len(sub) != 1:
+            from sxl.explore import Inconclusive
+            raise Inconclusive("SBin.count(%r) is not modelled" % (sub,))
+        from sxl.ints import SInt
+        n = 0
+        for x in self.c:
+            if isinstance(x, str):
+                n = n + (1 if x == sub else 0)
+            elif sub == "1":
+                n = n + SInt.of(x)
+            elif sub == "0":
+                n = n + SInt.of(bnot(x))
+        return n
+
     def __add__(self, o):
         if isinstance(o, str):
             return SBin(self.c + list(o))
@@ -93,6 +109,41 @@ class SBin:
 
     def __format__(self, spec):
         return repr(self)
+
+
+class LazyBin(SBin):
+    """bin(x) of a symbolic non-negative int whose characters are only produced (by a fork on the bit length) when something looks at them;
+    the population-count idiom bin(x).count("1") needs no fork at all"""
+    __slots__ = ("x", "_forced")
+
+    def __init__(self, x):
+        self.x = x
+        self._forced = None
+
+    @property
+    def c(self):
+        if self._forced is None:
+            x = self.x
+            n = x.bit_length()            # forks on the bit length
+            if n == 0:
+                self._forced = list("0b0")
+            else:
+                b = x.ubits()
+                self._forced = ["0", "b", "1"] + [b[i] for i in reversed(range(n - 1))]
+        return self._forced
+
+    @c.setter
+    def c(self, v):
+        self._forced = v
+
+    def count(self, sub, *a):
+        if self._forced is None and sub == "1" and not a:
+            from sxl.ints import SInt
+            n = 0
+            for b in self.x.ubits():
+                n = n + (SInt.of(b) if b.__class__ is Bit else int(b))
+            return n
+        return SBin.count(self, sub, *a)
 
 
 class SStr:
